@@ -24,7 +24,7 @@ import numpy as np
 from .. import common as C
 
 HEADER = ("From Coq Require Import List Arith Bool ZArith QArith Qcanon.\nImport ListNotations.\n"
-          "Require Import NV.C09.Model.\nOpen Scope Q_scope.\n")
+          "Require Import NV.C09.Model NV.C09.ModelSHT.\nOpen Scope Q_scope.\n")
 
 MODES = ["TIMES", "ADJ", "INV", "ADJINV"]
 CONVS = ["non_canonical_hartley", "canonical_hartley"]
@@ -514,6 +514,66 @@ def random_smoothing_case(rng, i):
             "seed": int(rng.integers(0, 2 ** 31))}
 
 
+# ---------------------------------------------------------------------------------------------------
+# SHT packing: what SHTOperator hands to / takes from ducc0.sht, against coq/C09/ModelSHT.v
+# ---------------------------------------------------------------------------------------------------
+
+TOLP = "(1 # 1000000000000)%Q"     # 1e-12 relative, applied inside Coq (entries are k*sqrt(1/2), k*sqrt(2))
+
+
+def sht_packing_terms(ctx):
+    """Run the real SHTOperator with ducc0.sht.synthesis / adjoint_synthesis wrapped (in this process
+    only): capture the alm array built by _slice_h2p, and feed a prescribed alm array to _slice_p2h."""
+    ift = quiet()
+    import ducc0
+    rng = ctx.rng(94)
+    terms, meta = [], []
+    orig_s, orig_a = ducc0.sht.synthesis, ducc0.sht.adjoint_synthesis
+    lms = [(0, 0), (1, 0), (1, 1), (2, 1), (3, 3), (3, 1), (4, 2)] + ([] if ctx.quick else [(6, 6), (5, 0), (7, 3)])
+    try:
+        for lmax, mmax in lms:
+            lm = ift.LMSpace(lmax, mmax)
+            tgt = lm.get_default_codomain() if (lmax + mmax) % 2 == 0 else ift.HPSpace(2)
+            op = ift.SHTOperator(lm, tgt)
+            terms.append("c_sizes %d%%nat %d%%nat %d%%nat" % (lmax, mmax, lm.size))
+            meta.append({"kind": "sht_packing", "what": "sizes", "lmax": lmax, "mmax": mmax})
+            # h2p: capture alm
+            cap = {}
+
+            def fake_s(*a, **kw):
+                cap["alm"] = np.array(kw["alm"]).reshape(-1)
+                return orig_s(*a, **kw)
+            ducc0.sht.synthesis = fake_s
+            inp = rng.integers(-8, 9, size=lm.size).astype(float)
+            try:
+                op.times(ift.Field.from_raw(lm, inp))
+                alm = cap["alm"]
+                terms.append("c_pack %s %d%%nat %d%%nat %s %s" % (TOLP, lmax, mmax, C.clist([C.cq(float(v)) for v in inp]), cqpairs(alm)))
+            except Exception:
+                terms.append("false")
+            finally:
+                ducc0.sht.synthesis = orig_s
+            meta.append({"kind": "sht_packing", "what": "h2p", "lmax": lmax, "mmax": mmax})
+            # p2h: prescribe rr
+            nalm = ((mmax + 1) * (mmax + 2)) // 2 + (mmax + 1) * (lmax - mmax)
+            rr = rng.integers(-8, 9, size=nalm) + 1j * rng.integers(-8, 9, size=nalm)
+
+            def fake_a(*a, **kw):
+                return rr.reshape(1, -1).astype(complex)
+            ducc0.sht.adjoint_synthesis = fake_a
+            try:
+                y = op.adjoint_times(ift.Field.from_raw(tgt, np.zeros(tgt.shape))).asnumpy().reshape(-1) * np.sqrt(4 * np.pi)
+                terms.append("c_unpack %s %d%%nat %d%%nat %s %s" % (TOLP, lmax, mmax, cqpairs(rr), C.clist([C.cq(float(v)) for v in y])))
+            except Exception:
+                terms.append("false")
+            finally:
+                ducc0.sht.adjoint_synthesis = orig_a
+            meta.append({"kind": "sht_packing", "what": "p2h", "lmax": lmax, "mmax": mmax})
+    finally:
+        ducc0.sht.synthesis, ducc0.sht.adjoint_synthesis = orig_s, orig_a
+    return terms, meta
+
+
 def case_failures(case):
     k = case.get("kind", "op")
     if k == "op":
@@ -634,12 +694,19 @@ class C09(C.Check):
                         checks.append("check_kernel_hartley %s %s %s %s" % (
                             C.cbool(conv == CONVS[0]), cnats(shape), cqpairs(xr), cqpairs(y)))
                         meta.append({"kind": "kernel", "fn": nm, "shape": shape, "conv": conv})
+        pt, pm = sht_packing_terms(ctx)
+        checks += pt
+        meta += pm
         bad = C.eval_cases(self.prop, "corr_p%d" % os.getpid(), HEADER, checks, shard=200, jobs=4)
         hints = []
         for i in bad[:4]:
-            res.add_broken("correspondence", "harmonic operators vs coq/C09/Model.v (exact)", meta[i])
+            res.add_broken("correspondence", "harmonic operators vs coq/C09/Model.v (exact)" if meta[i]["kind"] != "sht_packing"
+                           else "SHTOperator packing vs coq/C09/ModelSHT.v", meta[i])
         for i in bad:
-            hints.append(meta[i])
+            if meta[i]["kind"] == "sht_packing":
+                hints.append({"kind": "sht", "grid": "gl", "lmax": meta[i]["lmax"], "mmax": meta[i]["mmax"]})
+            else:
+                hints.append(meta[i])
         # differential runs (implementations against each other / explicit DFT): labelled, not proofs
         drng = ctx.rng(92)
         ndiff = 12 if ctx.quick else 80
@@ -657,7 +724,8 @@ class C09(C.Check):
                         for m in meta if m["kind"] == "exact" and int(np.prod(m["case"]["shape"])) > 1})
         dist = {}
         for m in meta:
-            key = m["case"]["op"] + ":" + m["mode"] if m["kind"] == "exact" else "kernel:" + m["fn"]
+            key = (m["case"]["op"] + ":" + m["mode"] if m["kind"] == "exact" else
+                   "kernel:" + m["fn"] if m["kind"] == "kernel" else "sht_packing:" + m["what"])
             dist[key] = dist.get(key, 0) + 1
         res.coverage.update({
             "evaluations": len(checks), "distinct_nontrivial": distinct,
